@@ -871,8 +871,9 @@ func c11ExecPipe(r *sim.Run, sc *c11PipeSc) {
 				}
 				other := ""
 				for gi := range exp {
-					if gi != g && got == norm(c11FullOutcome(rec), gi) && got == exp[gi][id] {
+					if gi != g && norm(c11FullOutcome(rec), gi) == exp[gi][id] {
 						other = fmt.Sprintf(" (it is the twin answer of generation %d)", gi)
+						break
 					}
 				}
 				r.Violate(class, "request {%v} ran on pipeline generation %d, %s\n got:  %s%s\n twin: %s\nspec g%d: %s", q, g, what, got, other, exp[g][id], g, texts[g])
@@ -889,9 +890,8 @@ func c11ExecPipe(r *sim.Run, sc *c11PipeSc) {
 		}()
 		cur.Close()
 	}()
-	for id, n := range backendCalls {
+	for _, n := range backendCalls {
 		if n > 1 {
-			_ = id
 			r.Probe("c11.pipe.proxy_retried")
 		}
 	}
